@@ -96,8 +96,8 @@ impl core::ops::Mul<Felt> for Felt {
 }
 impl MulAssignSpecImpl<Felt> for Felt {
     open spec fn obeys_mul_assign_spec() -> bool { true }
-    open spec fn mul_assign_req(self, rhs: Felt) -> bool { true }
-    open spec fn mul_assign_spec(self, rhs: Felt) -> Felt { felt_of(fmul(self.val(), rhs.val())) }
+    open spec fn mul_assign_req(&self, rhs: Felt) -> bool { true }
+    open spec fn mul_assign_spec(&self, rhs: Felt) -> Felt { felt_of(fmul(self.val(), rhs.val())) }
 }
 impl core::ops::MulAssign<Felt> for Felt {
     #[verifier::external_body]
@@ -105,8 +105,8 @@ impl core::ops::MulAssign<Felt> for Felt {
 }
 impl AddAssignSpecImpl<Felt> for Felt {
     open spec fn obeys_add_assign_spec() -> bool { true }
-    open spec fn add_assign_req(self, rhs: Felt) -> bool { true }
-    open spec fn add_assign_spec(self, rhs: Felt) -> Felt { felt_of(fadd(self.val(), rhs.val())) }
+    open spec fn add_assign_req(&self, rhs: Felt) -> bool { true }
+    open spec fn add_assign_spec(&self, rhs: Felt) -> Felt { felt_of(fadd(self.val(), rhs.val())) }
 }
 impl core::ops::AddAssign<Felt> for Felt {
     #[verifier::external_body]
